@@ -38,7 +38,7 @@ package bitmap
 //@   ensures[C04,C05:in-range-and-was-free] err == nil ==> (len(n.IP) == 4 && u32be(n.IP) >= a.start && u32be(n.IP) <= a.end && \
 //@       !old(bits(a.bitmap))[uint(u32be(n.IP) - a.start)] && \
 //@       bits(a.bitmap) == upd(old(bits(a.bitmap)), uint(u32be(n.IP) - a.start), true))
-//@   ensures[C05:slash32] err == nil ==> (len(n.Mask) == 4 && u32be(n.Mask) == 4294967295)
+//@   ensures[C04,C05:slash32] err == nil ==> (len(n.Mask) == 4 && u32be(n.Mask) == 4294967295)
 //@   ensures[C07:hint-honoured] (inrange4(a, hint.IP) && !old(bits(a.bitmap))[off4(a, hint.IP)]) ==> (err == nil && u32be(n.IP) == v4of(hint.IP))
 
 //@ func (*IPv4Allocator).Free
@@ -150,7 +150,7 @@ package bitmap
 //@       idx6(a, u128(ret.IP)) < blen(a.bitmap) && u128(ret.IP) == block6(a, idx6(a, u128(ret.IP))) && \
 //@       !old(bits(a.bitmap))[idx6(a, u128(ret.IP))] && \
 //@       bits(a.bitmap) == upd(old(bits(a.bitmap)), idx6(a, u128(ret.IP)), true))
-//@   ensures[C05:prefix-length] err == nil ==> (len(ret.Mask) == 16 && u128(ret.Mask) == cidr128(hintlen6(a, hint.Mask)))
+//@   ensures[C04,C05:prefix-length] err == nil ==> (len(ret.Mask) == 16 && u128(ret.Mask) == cidr128(hintlen6(a, hint.Mask)))
 //@   ensures[C07:hint-honoured] (hintok(hint.IP) && inpool6(a, hint128(hint.IP)) && !old(bits(a.bitmap))[idx6(a, hint128(hint.IP))]) ==> \
 //@       (err == nil && u128(ret.IP) == block6(a, idx6(a, hint128(hint.IP))))
 
